@@ -1,10 +1,8 @@
 (* Extract_relax.v -- extraction of the relaxation models (C06) to OCaml.
-   Same directives as Extract_kernels.v (trusted base, DESIGN.md section 6). *)
-From Coq Require Import Extraction ExtrOcamlBasic ExtrOcamlNatInt ExtrOcamlZBigInt.
+   Directives: ExtractCommon.v (trusted base, DESIGN.md section 6). *)
+From Amgcl Require Import ExtractCommon.
 From Coq Require Import QArith Qcanon.
 From Amgcl Require Import Scalar QcInst Vec Crs Kernels MatOps Relax Ilu Cheby.
-Extraction Blacklist List String Int Nat.
-Set Extraction Optimize.
 Separate Extraction
   QcInst.QcS Scalar.is_zero Scalar.smax Scalar.smin
   Vec Crs Kernels MatOps Relax Ilu Cheby.
